@@ -488,12 +488,8 @@ func rulePairedState(r *Run) {
 			if !ok {
 				return true
 			}
-			for _, l := range as.Lhs {
-				if se, ok := ast.Unparen(l).(*ast.SelectorExpr); ok {
-					if sel, ok := info.Selections[se]; ok && (sel.Obj() == cs || sel.Obj() == cp) {
-						writes = true
-					}
-				}
+			if r.P.stmtAssignsField(info, as, cs) || r.P.stmtAssignsField(info, as, cp) {
+				writes = true
 			}
 			return true
 		})
@@ -522,7 +518,7 @@ func rulePairedState(r *Run) {
 				if ev.Kind == EvAssign && len(ev.Lhs) == len(ev.Rhs) {
 					for k, l := range ev.Lhs {
 						if se, ok := ast.Unparen(l).(*ast.SelectorExpr); ok {
-							if sel, ok := ev.Fn.Info().Selections[se]; ok && (sel.Obj() == cs || sel.Obj() == cp) && !isNilIdent(ev.Fn.Info(), ev.Rhs[k]) {
+							if f := r.P.selField(ev.Fn.Info(), se); f != nil && (f == cs || f == cp) && !isNilIdent(ev.Fn.Info(), ev.Rhs[k]) {
 								lastSet = i
 							}
 						}
@@ -542,14 +538,14 @@ func rulePairedState(r *Run) {
 					if !ok {
 						continue
 					}
-					sel, ok := info.Selections[se]
-					if !ok || (sel.Obj() != cs && sel.Obj() != cp) {
+					f := r.P.selField(info, se)
+					if f == nil || (f != cs && f != cp) {
 						continue
 					}
 					if isNilIdent(info, ev.Rhs[k]) {
-						state[sel.Obj()] = "nil"
+						state[f] = "nil"
 					} else {
-						state[sel.Obj()] = "set"
+						state[f] = "set"
 					}
 				}
 			}
@@ -659,12 +655,8 @@ func (r *Run) sessionScopedFields() {
 						if !ok {
 							return true
 						}
-						for _, l := range as.Lhs {
-							if se, ok := ast.Unparen(l).(*ast.SelectorExpr); ok {
-								if sel, ok := fn.Info().Selections[se]; ok && sel.Obj() == fv {
-									found = true
-								}
-							}
+						if r.P.stmtAssignsField(fn.Info(), as, fv) {
+							found = true
 						}
 						return true
 					})
